@@ -251,6 +251,19 @@ pub fn run_extrafield_enc(o: &mut Out, rng: &mut Rng, n: usize) {
     }
 }
 
+/// C02: typed extra fields holding the given (accepted) public keys as transaction key and as additional keys round-trip through
+/// `serialize` -> `RawExtraField` -> `try_parse`
+pub fn run_extrafield_keys(o: &mut Out, pks: &[PublicKey]) {
+    use monero::consensus::encode::{deserialize, serialize};
+    for (i, k) in pks.iter().enumerate() {
+        let ex = ExtraField(vec![SubField::TxPublicKey(*k), SubField::AdditionalPublickKey(vec![pks[(i + 1) % pks.len()], *k])]);
+        let id = format!("extrafield keys {}", hex(&k.to_bytes()));
+        let back = deserialize::<RawExtraField>(&serialize(&ex)).map(|raw| ExtraField::try_parse(&raw));
+        o.direct(matches!(&back, Ok(Ok(p)) if p == &ex), "C02: try_parse(deserialize(serialize(ExtraField with accepted keys))) == the ExtraField", id, crate::common::trunc(&format!("{:?}", back), 200), "Ok(Ok(the value))".into());
+        o.stat("extrafield_keys");
+    }
+}
+
 /// C02 on sub-fields: every kind at its boundary sizes (padding 0..=255 incl. the documented maximum, merge-mining depths
 /// of every varint width, nonce / blob lengths around 127/128 and 16383/16384, 0..129 additional keys), alone and followed
 /// by a suffix. Direct checks: reported length = bytes written; strict parse returns the field; partial parse returns the
